@@ -27,9 +27,13 @@ def rot(k):
 
 def gen(ctx):
     rng = ctx.rng
+    dts = ["int64", "uint8", "int8", "int32", "list"]
     for loop, (_, m) in LOOPS.items():
         for c in range(m):
             yield dict(kind="batch", loop=loop, c=c, m=m)
+            # the same complete sweep with the neighbourhood given in another container / dtype
+            for dt in (dts[1:] if ctx.tier == "thorough" else [rng.choice(dts[1:])]):
+                yield dict(kind="batch", loop=loop, c=c, m=m, dtype=dt)
     # out-of-alphabet states (orientation independence is claimed over all states)
     for loop in LOOPS:
         for _ in range(ctx.n(40, 400)):
@@ -92,20 +96,25 @@ def loop_obj(name):
     return _LOOPS[name]
 
 
-def call_loop(obj, key):
+def call_loop(obj, key, dtype=None):
     c, t, r, b, l = key
-    n = np.array([[0, t, 0], [l, c, r], [0, b, 0]])
+    n = [[0, t, 0], [l, c, r], [0, b, 0]]
+    if dtype != "list":
+        n = np.array(n, dtype=dtype or "int64")
     try:
         v = obj(n, (1, 1), 1)
     except ValueError:
         return "E"
+    except Exception as e:  # noqa
+        return "X:" + type(e).__name__
     return "N" if v is None else str(int(v))
 
 
 def batch(c):
     obj = loop_obj(c["loop"])
     m = c["m"]
-    return [call_loop(obj, (c["c"], t, r, b, l)) for t in range(m) for r in range(m) for b in range(m) for l in range(m)]
+    dt = c.get("dtype")
+    return [call_loop(obj, (c["c"], t, r, b, l), dt) for t in range(m) for r in range(m) for b in range(m) for l in range(m)]
 
 
 def impl(c):
